@@ -8,6 +8,7 @@ import Purr.Lemmas.BuildErrL
 import Purr.Lemmas.JoinPairL
 import Purr.Lemmas.DenoteL
 import Purr.Lemmas.JoinReasonL
+import Purr.Lemmas.ScanParityL
 namespace Purr.C10
 open Purr Purr.Spec
 
@@ -138,7 +139,8 @@ theorem build_join_error_is_real (es : List Event) (a c : Nat) (h : build? es = 
     digit `k` was written, with bond kind `bk0`, while atom `c` was the head.  So `(a, c)` are the two atoms of one ring
     closure of the written text.  And that closure cannot be made, for one of the three reasons the property allows:
     `a = c` (a self-bond); or the events before it already give `c` a bond to `a` (`Spec.contribH`: a second bond); or
-    the kinds written at the two digits are irreconcilable. -/
+    the kinds written at the two digits are irreconcilable.  And it is the FIRST such defect of the history: no earlier
+    ring digit meets one. -/
 theorem build_join_error_is_a_written_closure (es : List Event) (a c : Nat) (h : build? es = some (.error (.join a c))) :
     ∃ pre bk r post k bk0, es = pre ++ .join bk r :: post ∧
       (Spec.replay [] 0 pre).1.head? = some a ∧
@@ -146,11 +148,30 @@ theorem build_join_error_is_a_written_closure (es : List Event) (a c : Nat) (h :
       Spec.joinAt (Spec.annotate [] 0 pre) k = some (bk0, c) ∧
       (a = c ∨
        (∃ j b, Spec.contribH (Spec.annotate [] 0 pre) (Spec.scan 0 (Spec.annotate [] 0 pre) ([], [])).1 c j = some (.bond ⟨b, a⟩)) ∨
-       reconcile bk0 bk = none) := by
+       reconcile bk0 bk = none) ∧
+      (∀ p2 bk2 r2 q2 a2 c2, pre = p2 ++ .join bk2 r2 :: q2 → ¬ HistDefect p2 bk2 r2 a2 c2) := by
   obtain ⟨pre, bk, r, post, s1, hsplit, hpre, herr, hdef⟩ := build_join_error_is_real es a c h
   have hinv : DInv pre s1 := by simpa using DInv.run pre DInv.init hpre herr
   obtain ⟨k, bk0, h1, h2, h3, h4⟩ := joinDefect_history hinv hdef
-  exact ⟨pre, bk, r, post, k, bk0, hsplit, h1, h2, h3, h4⟩
+  refine ⟨pre, bk, r, post, k, bk0, hsplit, h1, h2, h3, h4, ?_⟩
+  -- it is the FIRST defect of the history
+  intro p2 bk2 r2 q2 a2 c2 hsp hd2
+  have hnone := (brun_no_error_iff pre hpre rfl).mp herr
+  have hrun := hpre
+  rw [hsp, brun_append] at hrun
+  cases hp2 : brun .init p2 with
+  | none => rw [hp2] at hrun; cases hrun
+  | some s2 =>
+    rw [hp2] at hrun
+    simp only [Option.bind_some] at hrun
+    obtain ⟨l, hl⟩ := brun_errors hrun
+    have he2 : s2.errors = [] := by
+      rw [herr] at hl
+      cases h1 : s2.errors with
+      | nil => rfl
+      | cons x xs => rw [h1] at hl; cases hl
+    have hinv2 : DInv p2 s2 := by simpa using DInv.run p2 DInv.init hp2 he2
+    exact hnone p2 (.join bk2 r2) q2 s2 hsp hp2 a2 c2 ⟨bk2, r2, rfl, history_joinDefect hinv2 hd2⟩
 
 /-- the three reasons are not vacuous: `C11` (self-bond), `C1C1` (second bond), `C=1CC#1` (irreconcilable) fail with `Join` -/
 example : build? [.root .star, .join .elided ⟨1, by decide⟩, .join .elided ⟨1, by decide⟩] = some (.error (.join 0 0)) := rfl
@@ -305,6 +326,37 @@ theorem build_succeeds_iff_written (es : List Event) (hc : Conformant es) :
         have := heven r
         omega
 
+/-- "LEFT UNMATCHED", IN THE VOCABULARY OF THE PAIRING RULE: for every history, a ring number is open at the end of the
+    left-to-right pairing scan (a digit closes the nearest preceding open digit of the same number, otherwise it opens)
+    exactly when it has been written an odd number of times — so "every number is written an even number of times" says
+    "no ring-closure digit is left unmatched" -/
+theorem unmatched_iff_odd (es : List Event) (r : Rnum) :
+    ((Spec.scan 0 (Spec.annotate [] 0 es) ([], [])).2.lookup r).isSome = true ↔ countR es r % 2 = 1 :=
+  scan_open_iff_odd es r
+
+/-- … hence: for every conformant history, `build` returns a graph if and only if no ring-closure digit meets a
+    written-history defect and the pairing scan ends with no digit open -/
+theorem build_succeeds_iff_nothing_open (es : List Event) (hc : Conformant es) :
+    (∃ g, build? es = some (.ok g)) ↔
+      ((∀ pre bk r post a c, es = pre ++ .join bk r :: post → ¬ HistDefect pre bk r a c) ∧
+       ∀ r, (Spec.scan 0 (Spec.annotate [] 0 es) ([], [])).2.lookup r = none) := by
+  rw [build_succeeds_iff_written es hc]
+  constructor
+  · rintro ⟨h1, h2⟩
+    refine ⟨h1, fun r => ?_⟩
+    cases hl : (Spec.scan 0 (Spec.annotate [] 0 es) ([], [])).2.lookup r with
+    | none => rfl
+    | some k =>
+      have := (unmatched_iff_odd es r).mp (by rw [hl]; rfl)
+      have := h2 r
+      omega
+  · rintro ⟨h1, h2⟩
+    refine ⟨h1, fun r => ?_⟩
+    have hn : ¬ countR es r % 2 = 1 := fun h => by
+      have := (unmatched_iff_odd es r).mpr h
+      rw [h2 r] at this; cases this
+    omega
+
 /-- THE TRAVERSAL'S JOINS COME IN MATCHED PAIRS (C08, stated on the event stream itself): for every well-formed adjacency
     list, in the events the traversal hands to a follower every ring number is written an even number of times — each
     opening is answered by exactly one closing — and no closing digit meets a defect: the two ends are never the same
@@ -437,6 +489,75 @@ theorem walk_join_pairs_are_bonds_written (g : Graph) (hw : WellFormed g) (es : 
           (fun k => (Spec.joinAt (Spec.annotate [] 0 pre) k).map (·.2))) = some c
         rw [hopen]; simp [hk]
       exact walk_join_pairs_are_bonds g hw es ord h pre post bk r s1 a c hsplit hp h1 h2
+
+/-- every prefix of the events of a successful traversal is an error-free builder run satisfying the prefix invariant -/
+theorem walk_prefix_dinv (g : Graph) (hw : WellFormed g) (es : List (Event × Nat)) (ord : List Nat)
+    (h : walkRecL g = some (es, ord)) (pre post : List Event) (hsplit : es.map (·.1) = pre ++ post) :
+    ∃ s1, brun .init pre = some s1 ∧ DInv pre s1 := by
+  obtain ⟨g', hb, _⟩ := rtc g hw es ord h
+  unfold build? at hb
+  cases hrun : brun .init (es.map (·.1)) with
+  | none => rw [hrun] at hb; cases hb
+  | some sF =>
+    rw [hrun] at hb
+    simp only [Option.map_some, Option.some.injEq] at hb
+    have heF : sF.errors = [] := by
+      unfold BState.build at hb
+      cases he : sF.errors with
+      | nil => rfl
+      | cons e l => rw [he] at hb; cases hb
+    rw [hsplit, brun_append] at hrun
+    cases hp : brun .init pre with
+    | none => rw [hp] at hrun; cases hrun
+    | some s1 =>
+      rw [hp] at hrun
+      simp only [Option.bind_some] at hrun
+      obtain ⟨l, hl⟩ := brun_errors hrun
+      have he1 : s1.errors = [] := by
+        rw [heF] at hl
+        cases h1 : s1.errors with
+        | nil => rfl
+        | cons x xs => rw [h1] at hl; cases hl
+      exact ⟨s1, rfl, by simpa using DInv.run pre DInv.init hp he1⟩
+
+/-- THE PAIRING CLAUSE OF C08 WITH NOTHING ASSUMED ABOUT THE OPEN DIGIT: in the events of a traversal of a well-formed
+    adjacency list, whenever a ring digit is written at head `a` while the pairing scan has digit `k` open for its number,
+    digit `k` IS a ring-closure digit of the stream, written at some head `c` — and the atoms visited `a`-th and `c`-th are
+    bonded in the graph: one join on each atom of the bond -/
+theorem walk_closing_digit_joins_bonded_atoms (g : Graph) (hw : WellFormed g) (es : List (Event × Nat)) (ord : List Nat)
+    (h : walkRecL g = some (es, ord)) (pre post : List Event) (bk : BondKind) (r : Rnum) (a k : Nat)
+    (hsplit : es.map (·.1) = pre ++ .join bk r :: post)
+    (hhead : (Spec.replay [] 0 pre).1.head? = some a)
+    (hopen : (Spec.scan 0 (Spec.annotate [] 0 pre) ([], [])).2.lookup r = some k) :
+    ∃ bk0 c, Spec.joinAt (Spec.annotate [] 0 pre) k = some (bk0, c) ∧
+      ∃ x y atomX, x ∈ ord ∧ y ∈ ord ∧ pos ord x = a ∧ pos ord y = c ∧ g[x]? = some atomX ∧ ∃ bd ∈ atomX.bonds, bd.tid = y := by
+  obtain ⟨s1, _, hinv⟩ := walk_prefix_dinv g hw es ord h pre (.join bk r :: post) hsplit
+  have hq : (r, k) ∈ (scanPO pre).2 := lookup_mem' hopen
+  obtain ⟨_, b', t', c', hA⟩ := hinv.sb (r, k) hq
+  simp only at hA
+  have hj : Spec.joinAt (Spec.annotate [] 0 pre) k = some (b', t') := by
+    show Spec.joinAt (annA pre) k = some (b', t')
+    unfold Spec.joinAt; rw [hA]
+  exact ⟨b', t', hj, walk_join_pairs_are_bonds_written g hw es ord h pre post bk b' r a t' k hsplit hhead hopen hj⟩
+
+/-- the two event-level statements about `walk` ITSELF (the loop mirroring src/walk/walk.rs): its events are those of the
+    recursive formulation (`walkRec_of_walk_ok`), so every ring number is written an even number of times, no closing
+    digit meets a written-history defect, and each closing digit joins two atoms that are bonded in the graph -/
+theorem walk_joins_paired_on_events (g : Graph) (hw : WellFormed g) (hok : (walk g).2 = .ok) :
+    (∀ r, countR (walk g).1 r % 2 = 0) ∧
+    (∀ pre bk r post a c, (walk g).1 = pre ++ .join bk r :: post → ¬ HistDefect pre bk r a c) ∧
+    ∃ ord : List Nat, ord.Nodup ∧ ∀ pre post bk r a k, (walk g).1 = pre ++ .join bk r :: post →
+      (Spec.replay [] 0 pre).1.head? = some a →
+      (Spec.scan 0 (Spec.annotate [] 0 pre) ([], [])).2.lookup r = some k →
+      ∃ bk0 c, Spec.joinAt (Spec.annotate [] 0 pre) k = some (bk0, c) ∧
+        ∃ x y atomX, x ∈ ord ∧ y ∈ ord ∧ pos ord x = a ∧ pos ord y = c ∧ g[x]? = some atomX ∧ ∃ bd ∈ atomX.bonds, bd.tid = y := by
+  obtain ⟨es, ord, hr, hev⟩ := walkRec_of_walk_ok g hw hok
+  obtain ⟨hno, heven⟩ := walk_joins_balanced_written g hw es ord hr
+  obtain ⟨g', _, _, hnd, _⟩ := rtc g hw es ord hr
+  rw [hev] at hno heven
+  refine ⟨heven, hno, ord, hnd, ?_⟩
+  intro pre post bk r a k hsplit hhead hopen
+  exact walk_closing_digit_joins_bonded_atoms g hw es ord hr pre post bk r a k (by rw [hev]; exact hsplit) hhead hopen
 
 /-! non-vacuity: `C/1CC/1` (irreconcilable kinds) reports `Join(2, 0)`, and in `C1C` digit 0 is unmatched; the theorems
     above apply to both -/
